@@ -527,6 +527,13 @@ inductive Needed (leaves : Name × Asg → Prop) (par : Name × Asg → Name × 
   | leaf (x : Name × Asg) : leaves x → Needed leaves par ok x
   | step (x y : Name × Asg) : Needed leaves par ok x → par x y → ok y.2 → Needed leaves par ok y
 
+theorem Needed.imp {leaves leaves' : Name × Asg → Prop} {par par' : Name × Asg → Name × Asg → Prop}
+    {ok ok' : Asg → Prop} (hl : ∀ x, leaves x → leaves' x) (hp : ∀ x y, par x y → par' x y)
+    (ho : ∀ a, ok a → ok' a) {x : Name × Asg} (h : Needed leaves par ok x) : Needed leaves' par' ok' x := by
+  induction h with
+  | leaf x h => exact Needed.leaf x (hl x h)
+  | step x y _ h1 h2 ih => exact Needed.step x y ih (hp x y h1) (ho _ h2)
+
 /-- what of the unrestricted copy (`au`) a worker restricted to `al` still needs: start at the selected tests
 composed with variants `al` allows, follow the edges of the unrestricted copy to parents on allowed variants -/
 def NeededA (S : Suite) (al au : String → List String) (sel : List RLine) : Name × Asg → Prop :=
@@ -647,14 +654,17 @@ def cx2 : Suite := ⟨[("vm1", ["A"]), ("vm2", ["X", "Y"])], "vm1", [tInstall, t
 def free : Worker := ⟨"net1", []⟩
 def noX : Worker := ⟨"net2", [("vm2", (true, ["X"]))]⟩
 
-/-- cx3 / labels: `d` on vm1 needs the group `m` composed on vm1 and vm2; `m` needs `install` on vm2 -/
+/-- cx3 / labels: `d` on vm1 needs `m`, which is composed on vm1 and every variant of vm2 (two producers for an
+unrestricted worker: `d` is cloned); `m` needs `install` on vm1 -/
 def tM : Test :=
-  ⟨["internal", "m"], ["vm1", "vm2"], false, [["all"]], [⟨"vm2", "images", ["install"], "install", "mst"⟩], []⟩
+  ⟨["internal", "m"], ["vm1", "vm2"], false, [["all"]], [⟨"vm1", "images", ["install"], "install", "mst"⟩], []⟩
 def tD1 : Test :=
   ⟨["quick", "d"], ["vm1"], false, [["all"], ["leaves"]], [⟨"vm1", "images", ["m"], "", ""⟩], []⟩
 def cx3 : Suite := ⟨[("vm1", ["A"]), ("vm2", ["X", "Y"])], "vm1", [tInstall, tM, tD1]⟩
 def onlyX : Worker := ⟨"net2", [("vm2", (false, ["X"]))]⟩
 def noXY : Worker := ⟨"net3", [("vm2", (true, ["X", "Y"]))]⟩
+def rk3 (n : Name) : Nat :=
+  if n == ["original", "install"] then 0 else if n == ["internal", "m"] then 1 else 2
 
 /-- the demo suite's worker restricted to variant `A` of vm1 -/
 def onlyA : Worker := ⟨"net2", [("vm1", (false, ["A"]))]⟩
